@@ -14,6 +14,38 @@ from .. import cfdp_common as CF
 HDR = "cfdp.pdu.header"
 
 
+def check_data_field_len_bound(ck, P):
+    """the 16-bit PDU data field length: exactly the values 0..65535 are stored (shared with C11: every recomputed
+    length goes through this setter)"""
+    it = new_interp(P); env = Env()
+    conf = CF.make_conf(it, env, P, 1, 1)
+    n0 = len(it.raises)
+    hdr = construct(it, env, f"{HDR}.PduHeader", dict(pdu_type=CF.esym(P, "pdu_type", f"{CF.DEFS}.PduType"),
+                                                       segment_metadata_flag=CF.esym(P, "segment_metadata_flag", f"{CF.DEFS}.SegmentMetadataFlag"),
+                                                       pdu_data_field_len=sym("pdu_data_field_len", ty="int"), pdu_conf=conf))
+    dfl = sym("pdu_data_field_len", ty="int")
+    st, m = D.prove(env.facts, binop("<=", dfl, C(65535)))
+    if st == "proved":
+        ck.proved("G-REFUSE", "PduHeader.pdu_data_field_len setter", "a data field length above 65535 is never stored", "guard facts entail pdu_data_field_len <= 65535")
+    elif st == "refutable":
+        ck.refuted("G-REFUSE", "PduHeader.pdu_data_field_len setter", "a data field length above 65535 is never stored", f"accepted: {m}", witness=m)
+    else:
+        ck.unknown("G-REFUSE", "PduHeader.pdu_data_field_len setter", "a data field length above 65535 is never stored", str(m))
+    for r in it.raises[n0:]:
+        if r["caught"] or r["kind"] != "explicit":
+            continue
+        st, m = D.prove(r["facts"], binop(">", dfl, C(65535)))
+        cons = f"refusal `{r['text'][:50]}` only for a length above 65535, as ValueError"
+        if st == "proved" and it.exc_matches(r["exc"], ("ValueError",)):
+            ck.proved("G-REFUSE", "PduHeader.pdu_data_field_len setter", cons, r["exc"])
+        elif st == "refutable":
+            ck.refuted("G-REFUSE", "PduHeader.pdu_data_field_len setter", cons, f"in-range length refused: {m}", witness=m)
+        elif st == "proved":
+            ck.refuted("G-REFUSE", "PduHeader.pdu_data_field_len setter", cons, f"raises {r['exc']}")
+        else:
+            ck.unknown("G-REFUSE", "PduHeader.pdu_data_field_len setter", cons, str(m))
+
+
 def run(ck):
     P = Program(ck.repo)
     ck.explanation = (
@@ -59,33 +91,7 @@ def run(ck):
         R.check_lin_equal(ck, read_path(it, env, hdr, "packet_len"), want + Lin({sym("pdu_data_field_len", ty="int"): 1}), "PduHeader.packet_len",
                           f"packet_len == header_len + pdu_data_field_len ({tag})")
     # data field length bound
-    it = new_interp(P); env = Env()
-    conf = CF.make_conf(it, env, P, 1, 1)
-    n0 = len(it.raises)
-    hdr = construct(it, env, f"{HDR}.PduHeader", dict(pdu_type=CF.esym(P, "pdu_type", f"{CF.DEFS}.PduType"),
-                                                       segment_metadata_flag=CF.esym(P, "segment_metadata_flag", f"{CF.DEFS}.SegmentMetadataFlag"),
-                                                       pdu_data_field_len=sym("pdu_data_field_len", ty="int"), pdu_conf=conf))
-    dfl = sym("pdu_data_field_len", ty="int")
-    st, m = D.prove(env.facts, binop("<=", dfl, C(65535)))
-    if st == "proved":
-        ck.proved("G-REFUSE", "PduHeader.pdu_data_field_len setter", "a data field length above 65535 is never stored", "guard facts entail pdu_data_field_len <= 65535")
-    elif st == "refutable":
-        ck.refuted("G-REFUSE", "PduHeader.pdu_data_field_len setter", "a data field length above 65535 is never stored", f"accepted: {m}", witness=m)
-    else:
-        ck.unknown("G-REFUSE", "PduHeader.pdu_data_field_len setter", "a data field length above 65535 is never stored", str(m))
-    for r in it.raises[n0:]:
-        if r["caught"] or r["kind"] != "explicit":
-            continue
-        st, m = D.prove(r["facts"], binop(">", dfl, C(65535)))
-        cons = f"refusal `{r['text'][:50]}` only for a length above 65535, as ValueError"
-        if st == "proved" and it.exc_matches(r["exc"], ("ValueError",)):
-            ck.proved("G-REFUSE", "PduHeader.pdu_data_field_len setter", cons, r["exc"])
-        elif st == "refutable":
-            ck.refuted("G-REFUSE", "PduHeader.pdu_data_field_len setter", cons, f"in-range length refused: {m}", witness=m)
-        elif st == "proved":
-            ck.refuted("G-REFUSE", "PduHeader.pdu_data_field_len setter", cons, f"raises {r['exc']}")
-        else:
-            ck.unknown("G-REFUSE", "PduHeader.pdu_data_field_len setter", cons, str(m))
+    check_data_field_len_bound(ck, P)
     # mismatching entity id widths
     for Es, Ed in ((1, 2), (4, 2), (8, 1)):
         it = new_interp(P); env = Env()
